@@ -430,6 +430,21 @@ func ruleCancelPump(c *Ctx, m *multiModel, rule string) {
 							}
 						}
 						c.CheckAt(rule, key+":select-has-cancel-arm", v, cancelK >= 0, "blocking select in the reader goroutine has no receive arm on a channel that the last release closes")
+						// RENDEZVOUS: the channel on which the goroutine meets the handles is unbuffered. The goroutine offers/takes only
+						// when it holds a connection/datagram, and a handle that is closed withdraws by leaving its own select; a
+						// buffer slot is an offer or a request that nobody can withdraw (the handle then waits for the answer without
+						// watching its close signal; the queued item goes to a closed handle or is dropped at the last release).
+						for k, st := range v.States {
+							if k == cancelK {
+								continue
+							}
+							fld := chanFieldOf(c, m, pump, st.Chan)
+							if fld == "" || done[fld] {
+								continue
+							}
+							okU, why := fieldChansUnbuffered(c, fld)
+							c.CheckAt(rule, key+":handoff-channel-unbuffered:"+fld, v, okU, "the channel on which the reader goroutine hands over to the handles ("+fld+") is not a rendezvous: "+why+"; a queued request/offer cannot be withdrawn when its handle closes, so Close no longer unblocks the pending read and the next datagram/connection goes to a closed handle or is lost")
+						}
 						if cancelK < 0 {
 							continue
 						}
@@ -600,6 +615,35 @@ func ruleCancelPump(c *Ctx, m *multiModel, rule string) {
 			c.CheckAt(rule, fmt.Sprintf("%s:return#%d:only-when-closed-or-cancelled", key, i), r, len(cancelEdges) > 0 && eng.Cut(pump, r.Block(), cancelEdges), "the reader goroutine can stop on a path that is neither the socket-closed test nor its cancel arm (e.g. on any accept/read error): the socket stays open with nobody reading it, and every handle blocks forever")
 		}
 	}
+}
+
+// fieldChansUnbuffered: every channel stored into field "T.f" is created by make with constant size 0.
+func fieldChansUnbuffered(c *Ctx, fld string) (bool, string) {
+	i := strings.LastIndex(fld, ".")
+	T, f := fld[:i], fld[i+1:]
+	n := 0
+	for _, st := range c.P.FieldStores(T, f) {
+		if st.Val == nil {
+			continue
+		}
+		for _, o := range c.P.Origins(st.Val, eng.Plain) {
+			if k, ok := o.(*ssa.Const); ok && k.Value == nil {
+				continue // reset to nil
+			}
+			mc, ok := o.(*ssa.MakeChan)
+			if !ok {
+				continue
+			}
+			n++
+			if sz, ok := eng.ConstInt(mc.Size); !ok || sz != 0 {
+				return false, "created with a buffer at " + c.P.IPos(mc)
+			}
+		}
+	}
+	if n == 0 {
+		return false, "no make(chan) found for it"
+	}
+	return true, ""
 }
 
 // privateBufferedChan: the channel is loaded from a struct field all of whose stored values are make(chan, N>=1).
